@@ -11,7 +11,7 @@ require github.com/ovn-org/libovsdb v0.0.0
 replace github.com/ovn-org/libovsdb => /repo
 EOM
 cp /repo/go.sum $S/h/
-sed -i 's/^package harness/package main/' $S/h/*.go
+sed -i 's/^package harness/package main/; /libovsdb\/simrt/d; /simrt\./d' $S/h/*.go
 cat > $S/h/main.go <<EOM
 package main
 
